@@ -11,12 +11,14 @@ below, replayed on the real crate): while a top-level query is re-verified, its 
 pushed onto `top_level_calls` after it and evict it from the LRU.  What is proved: the LRU refines
 "last `cap` distinct" of the sequence it is fed (`C03_lru_spec`), the collector keeps everything
 reachable from ITS roots unchanged and only ever removes nodes (`C03_gc_keeps_reachable`,
-`C03_gc_only_removes`), and the two root sets coincide when no top-level query was re-verified
-since the last collection (`C03_roots_partial`).
+`C03_gc_only_removes`), its LRU is "last `cap` distinct" of everything ever pushed onto
+`top_level_calls` (`C03_lru_invariant`), and hence the property's retention clause holds whenever
+nothing but the user's own calls was pushed (`C03_retention_partial`).
 The memory-safety clause (raw pointers of `intern_ref`) is outside this model: see PARTIAL.
 -/
 import IsoVerif.Lemmas.Pico
 import IsoVerif.Lemmas.PicoGc
+import IsoVerif.Model.PicoIntern
 
 namespace IsoVerif.Props.C03
 open IsoVerif.Pico
@@ -128,5 +130,65 @@ example : 1 ≤ 2 ∧
       = [⟨0, 0⟩, ⟨0, 0⟩, ⟨1, 0⟩, ⟨1, 1⟩, ⟨0, 0⟩] ∧
     gcLru (after 8 2 progLru [.set 0 1, .set 1 0, .call 0 0, .set 1 5, .call 0 0, .gc, .call 1 1, .call 0 0])
       = [⟨0, 0⟩, ⟨1, 1⟩] := by decide +kernel
+
+/-- **Retention, partial.**  Extra hypothesis, explicit: `pushes = userCalls` — since the start of
+the history nothing but the user's own successful top-level calls was pushed onto
+`top_level_calls` (no top-level query was re-verified after a source change, no call panicked); and
+`1 ≤ cap`.  Then a collection that does not panic keeps, with unchanged value, stamps and
+dependency list, every node reachable from a root the PROPERTY names (retained ∪ the `cap` most
+recent distinct top-level queries). -/
+theorem C03_retention_partial (fuel cap : Nat) (P : Prog) (pre : List Op) (hcap : 1 ≤ cap)
+    (hpush : (after fuel cap P pre).pushes = userCalls fuel cap P pre [] (initS cap P))
+    (s' : Storage) (hgc : gc (after fuel cap P pre) = (s', .ok ()))
+    (r : NodeId) (hr : r ∈ specRoots fuel cap P pre) (n : NodeId) (hn : Reach (after fuel cap P pre).derived r n) :
+    alookup s'.derived n = alookup (after fuel cap P pre).derived n := by
+  refine C03_gc_keeps_reachable _ _ hgc r n ?_ hn
+  unfold specRoots at hr
+  unfold gcRoots
+  rw [C03_lru_invariant fuel P cap hcap pre, hpush]
+  exact hr
+
+/- Non-vacuity: two top-level queries with a shared dependency, one retained, capacity 1; the
+collection drops the other one and keeps the retained one with its dependency. -/
+example :
+    (after 8 1 progLru [.set 0 1, .set 1 7, .call 0 0, .retain 0 0, .call 0 1]).pushes
+      = userCalls 8 1 progLru [.set 0 1, .set 1 7, .call 0 0, .retain 0 0, .call 0 1] [] (initS 1 progLru) ∧
+    (gc (after 8 1 progLru [.set 0 1, .set 1 7, .call 0 0, .retain 0 0, .call 0 1])).2 = .ok () ∧
+    specRoots 8 1 progLru [.set 0 1, .set 1 7, .call 0 0, .retain 0 0, .call 0 1] = [⟨0, 1⟩, ⟨0, 0⟩] := by
+  decide +kernel
+
+/-! ### memory safety of interned references (`intern_ref`, allocation liveness only) -/
+
+open IsoVerif.Pico.Intern in
+/-- No stored result holds a dangling interned reference: after every prefix of the history, the
+`MemoRef` that a live ref node obtained from `intern_ref` points into an allocation that is still
+alive (so `MemoRef::lookup` on it reads valid memory). -/
+def C03_memsafe_at (fuel cap : Nat) (P : Prog) (h : List Op) : Prop :=
+  ∀ pre rest, h = pre ++ rest →
+    ∀ n v, alookup (runL fuel P (initS cap P, Layer.init) pre).2.regs n = some v →
+      (alookup (runL fuel P (initS cap P, Layer.init) pre).1.derived n).isSome = true →
+      dangling (runL fuel P (initS cap P, Layer.init) pre).2 v = false
+
+def C03_memsafe : Prop := ∀ fuel cap P h, C03_memsafe_at fuel cap P h
+
+/-- F19: two ref functions intern equal values of two owners in one epoch; the intern node keeps
+the pointer into the first owner; only the second ref function is retained; the collection frees
+the first owner's value: the retained result `(0,1)` holds a dangling reference. -/
+theorem C03_witness_intern_alias :
+    ¬ C03_memsafe_at 8 1 [⟨3, .call 1 .param⟩, ⟨0, .src .param⟩]
+        [.set 0 7, .set 1 7, .call 0 0, .call 0 1, .retain 0 1, .gc] := fun H =>
+  absurd (H [.set 0 7, .set 1 7, .call 0 0, .call 0 1, .retain 0 1, .gc] [] (by simp) ⟨0, 1⟩ 7
+            (by decide +kernel) (by decide +kernel)) (by decide +kernel)
+
+theorem C03_memsafe_false : ¬ C03_memsafe := fun H => C03_witness_intern_alias (H 8 1 _ _)
+
+/-- with the two owners interned in DIFFERENT epochs the intern node is re-pointed to the second
+owner and, after the same collection, nothing dangles: the witness is about the same-epoch case. -/
+example :
+    Intern.dangling (Intern.runL 8 [⟨3, .call 1 .param⟩, ⟨0, .src .param⟩] (initS 1 [⟨3, .call 1 .param⟩, ⟨0, .src .param⟩], Intern.Layer.init)
+      [.set 0 7, .set 1 7, .set 2 0, .call 0 0, .set 2 1, .call 0 1, .retain 0 1, .gc]).2 7 = false ∧
+    Intern.dangling (Intern.runL 8 [⟨3, .call 1 .param⟩, ⟨0, .src .param⟩] (initS 1 [⟨3, .call 1 .param⟩, ⟨0, .src .param⟩], Intern.Layer.init)
+      [.set 0 7, .set 1 7, .set 2 0, .call 0 0, .call 0 1, .retain 0 1, .gc]).2 7 = true := by
+  decide +kernel
 
 end IsoVerif.Props.C03
